@@ -41,6 +41,13 @@ ASSUMPTIONS = [
 def option_vector(rng, bias=None):
     v = {}
     r = rng.random()
+    if bias == "cubic":
+        v = {"numeric_croots": True, "numeric_eps": rng.choice([1e-6, 1e-10])}
+        if rng.random() < 0.4:
+            v["numeric_roots"] = True
+        if rng.random() < 0.5:
+            v["_force_cyclic"] = True
+        return v
     numeric = r >= 0.6 if bias is None else (bias == "linear" and rng.random() < 0.6)
     if not numeric:
         if rng.random() < (0.8 if bias == "categorical" else 0.3):
@@ -154,6 +161,26 @@ def delay_line_program(rng):
     return {"types": [], "init": init, "guard": ["true"], "body": body}, goals
 
 
+def modular_counter_program(rng):
+    """`while true` loops over 0/1 variables that need no auxiliary types (so that they are also analysable with declared types
+    only): toggles under a coin, counters modulo 2 whose intermediate value leaves {0,1} (x = x + f; x = x*(2 - x))"""
+    p1 = gen.fstr(rng.choice(gen.PROB_POOL))
+    init = [["assign", "x", num(rng.choice([0, 1]))], ["assign", "y", num(0)], ["assign", "f", num(0)]]
+    body = [["assign", "f", ["draw", "Bernoulli", [num(p1)]]]]
+    kind = rng.choice(["wrap", "wrap", "toggle", "double", "wrap-toggle"])
+    if kind in ("wrap", "wrap-toggle"):
+        body += [["assign", "x", ["add", var("x"), var("f")]], ["assign", "x", ["mul", var("x"), ["sub", num(2), var("x")]]]]
+    if kind in ("toggle", "wrap-toggle"):
+        body += [["if", [[["cmp", var("f"), "==", num(1)], [["assign", "x", ["sub", num(1), var("x")]]]]], None]]
+    if kind == "double":
+        body += [["assign", "x", ["sub", num(1), var("x")]],
+                 ["if", [[["cmp", var("f"), "==", num(1)], [["assign", "x", ["sub", num(1), var("x")]]]]], None]]
+    acc = rng.choice([var("x"), ["mul", var("x"), var("f")], ["pow", var("x"), 2], ["add", var("x"), var("f")]])
+    body.append(["assign", "y", ["add", var("y"), acc]])
+    goals = ["x", "y"] + (["x*f"] if rng.random() < 0.3 else []) + (["y**2"] if rng.random() < 0.3 else [])
+    return {"types": [], "init": init, "guard": ["true"], "body": body}, goals
+
+
 def categorical_program(rng):
     """top-level categorical assignments with >= 3 branches (the shape transform_categoricals rewrites), conditions on them"""
     k = rng.choice([3, 3, 4])
@@ -210,11 +237,16 @@ def _program_choice(rng):
         goals = rng.sample(goals, min(len(goals), 2))
         if squares and rng.random() < 0.3:
             goals.append(f"{goals[0]}**2")
-        return {"text": text}, goals, "lin:" + hashlib.sha256(text.encode()).hexdigest()[:10], "linear"
+        # three-variable blocks have cubic characteristic polynomials whose roots sympy keeps as CRootOf objects
+        return {"text": text}, goals, "lin:" + hashlib.sha256(text.encode()).hexdigest()[:10], ("cubic" if "z" in text.split("while")[0] else "linear")
     if r < 0.7:
         prog, goals = categorical_program(rng)
         text = render_program(prog)
         return {"text": text}, rng.sample(goals, min(len(goals), 3)), "cat:" + hashlib.sha256(text.encode()).hexdigest()[:10], "categorical"
+    if r < 0.8:
+        prog, goals = modular_counter_program(rng)
+        text = render_program(prog)
+        return {"text": text}, goals, "mod:" + hashlib.sha256(text.encode()).hexdigest()[:10], "branchy"
     prog, goals = branchy_program(rng)
     text = render_program(prog)
     return {"text": text}, goals, "gen:" + hashlib.sha256(text.encode()).hexdigest()[:10], "branchy"
